@@ -194,6 +194,29 @@ def send_race(vc):
         vc.check('KF:%s/handler-errored-or-send-refused' % KF, (kind == 'exc' and not registered) or len(inv) == 1)
 
 
+@harness('C10', 'send_msg-defunct-while-writing', functions=[CQ + 'send_msg', CQ + 'defunct', CQ + 'error_all_requests'], native='contracts.native.c10:replay_push_race')
+def send_push_race(vc):
+    """the other interference point of send_msg: the connection fails while (or right after) the frame is handed to the reactor - push() is where a reactor
+    notices a dead socket and the event thread defuncts the connection.  ensures the handler of the request being sent is by then registered, so that the
+    sweep of defunct() errors it exactly once (a handler registered only after push() would be added to a connection that has already swept)"""
+    conn, st = _conn(vc, 0)
+    conn.attrs.update(_socket_writable=True, protocol_version=4, compressor=None, allow_beta_protocol_version=False, _is_checksumming_enabled=False)
+    when = vc.choice('connection_fails', ['during-push', 'not-at-all'])
+
+    def push(data):
+        if when == 'during-push':
+            call_value(vc.ctx, BoundMethod(resolve(CQ + 'defunct'), conn), [SObj(Exception, {'args': ('broken pipe',)})], {})
+    conn.attrs['push'] = _M(push, 'push')
+    inv = []
+    cb = _M(lambda r: inv.append(r), 'cb')
+    kind, r = vc.call_catch(CQ + 'send_msg', conn, 'MSG', 5, cb, encoder=_M(lambda *a, **k: b'FRAME', 'encoder'))
+    if when == 'during-push':
+        vc.check('failed-while-writing/handler-errored-exactly-once-or-send-refused', (kind == 'exc' and 5 not in conn.attrs['_requests'] and inv == []) or len(inv) == 1)
+        vc.check('failed-while-writing/no-handler-left-registered-on-the-dead-connection', 5 not in conn.attrs['_requests'])
+    else:
+        vc.check('quiet/registered-and-not-invoked', kind == 'ok' and 5 in conn.attrs['_requests'] and inv == [])
+
+
 @harness('C10', 'process_msg-decode-error', functions=[CQ + 'process_msg', CQ + 'defunct', CQ + 'error_all_requests'],
          native='contracts.native.c10:replay')
 def decode_error(vc):
